@@ -362,7 +362,12 @@ def fixed_frozen_write_cases(g):
     steps = [["remr %s %d %d" % ("%s", 2 * CH, 3 * CH)], ["remr %s %d %d" % ("%s", 8 * CH, 9 * CH)], ["remr %s %d %d" % ("%s", 14 * CH, 15 * CH)],
              ["rem %%s %d" % (11 * CH + 7)], ["crem %%s %d" % (11 * CH + 7)], ["flip %%s %d %d" % (11 * CH + 7, 11 * CH + 8)],
              ["iand %%s %s" % o], ["iandnot %%s %s" % o2], ["clear %s", "add %%s %d" % (3 * CH)], ["remr %%s 0 %d" % (12 * CH)],
-             ["rem %%s %d" % (11 * CH + 7), "add %%s %d" % (11 * CH + 7), "rem %%s %d" % (2 * CH + 5)]]
+             ["rem %%s %d" % (11 * CH + 7), "add %%s %d" % (11 * CH + 7), "rem %%s %d" % (2 * CH + 5)],
+             # content-neutral maintenance on the view, then writes into the chunks it did not convert
+             ["opt %s", "add %%s %d" % (8 * CH + 500), "rem %%s %d" % (8 * CH + 50), "add %%s %d" % (14 * CH + 5), "rem %%s %d" % (14 * CH + 5)],
+             ["opt %s", "opt %s", "add %%s %d" % (8 * CH + 2000), "add %%s %d" % (2 * CH + 6), "rem %%s %d" % (5 * CH + 2)],
+             # an in-place difference that empties the FIRST chunks (the survivors slide down), then writes into the survivors
+             ["iandnot %%s %s" % o2, "add %%s %d" % (11 * CH + 9), "add %%s %d" % (5 * CH + 1), "rem %%s %d" % (14 * CH + 7), "add %%s %d" % (14 * CH + 7)]]
     for j, st in enumerate(steps):
         for mode in ("rw", ""):
             w = g.fresh("fw")
